@@ -49,6 +49,10 @@ FP(clause, step, exp, got, alt, pof) ==
   <<[clause |-> clause, step |-> step, exp |-> exp, got |-> got, alt |-> alt, pof |-> pof]>>
 Ok == <<>>
 
+\* C07 applies to iff/xor-free Boolean formulas under the standard semantics whose predicates are defined
+SignApplies(p) == p.op # "null" /\ IsBoolFormula(p) /\ ~HasOp(p, {"iff", "xor"})
+Dist(a, b) == IF a >= b THEN a - b ELSE b - a
+
 \* result of applying one event: [m |-> new object record, o |-> new observation record,
 \*                                f |-> failure (<<>> or <<rec>>), u |-> number of Undef skips]
 R(m, o, f, u) == [m |-> m, o |-> o, f |-> f, u |-> u]
@@ -93,8 +97,14 @@ ApplyUpdate(m, o, e, step) ==
               ELSE IF m2.inst = m2.phi THEN F("update.ret", step, ex[2], e.ret)
               ELSE FP("update.ret", step, ex[2], e.ret, m2.outOn[Len(m2.outOn)], PastOverFuture(m2.phi))
         f2 == IF f0 = Ok /\ e.viol # m2.viol THEN F("update.viol", step, m2.viol, e.viol) ELSE Ok
-        f3 == IF f0 = Ok /\ ~e.same THEN F("update.argsMutated", step, "unchanged", "changed") ELSE Ok IN
-    R(m2, o2, f0 \o f1 \o f2 \o f3, IF und THEN 1 ELSE 0)
+        f3 == IF f0 = Ok /\ ~e.same THEN F("update.argsMutated", step, "unchanged", "changed") ELSE Ok
+        \* C07 (sign) for future-free, non-pastified monitors: the value at step k speaks about sample k
+        f4 == IF f0 = Ok /\ m2.inst = m2.phi /\ ~HasFuture(m2.phi) /\ SignApplies(m2.phi) /\ e.ret # Bad
+              THEN LET k == Len(m2.outOn)
+                       st == Sat(m2.phi, m2.hist, k, m2.cfg.S)[k] IN
+                   IF (e.ret > 0 /\ ~st) \/ (e.ret < 0 /\ st) THEN F("update.sign", step, st, e.ret) ELSE Ok
+              ELSE Ok IN
+    R(m2, o2, f0 \o f1 \o f2 \o f3 \o f4, IF und THEN 1 ELSE 0)
 
 ApplyReset(m, o, e, step) ==
   IF ~CanReset(m) THEN R(m, o, ExcClass(FALSE, e, "reset.exc", step), 0)
@@ -122,8 +132,14 @@ ApplyEvaluate(m, o, e, step) ==
             ELSE Ok
       f2 == IF f0 = Ok /\ e.viol # m2.viol THEN F("evaluate.viol", step, m2.viol, e.viol) ELSE Ok
       f3 == IF f0 = Ok /\ ~e.same THEN F("evaluate.argsMutated", step, "unchanged", "changed") ELSE Ok
-      u  == Cardinality({k \in 1..N : m2.offOut[k] = Undef}) IN
-  R(m2, o2, f0 \o f1 \o f2 \o f3, u)
+      u  == Cardinality({k \in 1..N : m2.offOut[k] = Undef})
+      \* C07 (sign), directly on the implementation's numbers and the Boolean semantics (not via Sig)
+      f4 == IF f0 = Ok /\ SignApplies(m2.phi) /\ Len(e.ret) = N
+            THEN LET st == Sat(m2.phi, e.w, N, m2.cfg.S) IN
+                 IF \E k \in 1..N : e.ret[k] # Bad /\ ((e.ret[k] > 0 /\ ~st[k]) \/ (e.ret[k] < 0 /\ st[k]))
+                 THEN F("evaluate.sign", step, st, e.ret) ELSE Ok
+            ELSE Ok IN
+  R(m2, o2, f0 \o f1 \o f2 \o f3 \o f4, u)
 
 Apply(c, e, step) ==
   LET m == ms[e.o] o == ob[e.o] obj == c.objs[e.o] IN
@@ -136,7 +152,7 @@ Apply(c, e, step) ==
 
 \* relations between the objects of a case, evaluated when all its events are consumed
 RelFail(c, r) ==
-  IF ob[r.x].dead \/ ob[r.y].dead THEN Ok ELSE
+  IF \E i \in (IF r.rel = "ball" THEN {r.x} ELSE {r.x, r.y}) : ob[i].dead THEN Ok ELSE
   CASE r.rel = "same_on" ->          \* observed update() returns of two objects are identical
          IF ob[r.x].on = ob[r.y].on THEN Ok ELSE F("rel.same_on", 0, ob[r.x].on, ob[r.y].on)
     [] r.rel = "same_off" ->         \* observed evaluate() results are identical
@@ -145,6 +161,13 @@ RelFail(c, r) ==
          LET a == ob[r.x].off b == ob[r.y].off n == Len(a) IN
          IF \A t \in 1..n : t + r.h <= n => (t <= Len(b) /\ a[t] = b[t]) THEN Ok
          ELSE F("rel.settled", 0, a, b)
+    [] r.rel = "ball" ->             \* C07 (magnitude): a trace X closer than |reported value| has the same verdict at r.t
+         LET m == ms[r.x] N == Len(m.ts) v == ob[r.x].off[r.t] IN
+         IF ~SignApplies(m.phi) \/ ~VarConstPreds(m.phi) \/ v = Bad \/ ~IsFin(v) \/ v = 0 THEN Ok
+         ELSE IF \E u \in m.cfg.vars : \E k \in 1..N : Dist(r.X[u][k], m.hist[u][k]) >= Abs(v) THEN Ok   \* outside the ball
+         ELSE IF SatUndef(m.phi, r.X, N, m.cfg.S) THEN Ok
+         ELSE IF Sat(m.phi, r.X, N, m.cfg.S)[r.t] = Sat(m.phi, m.hist, N, m.cfg.S)[r.t] THEN Ok
+         ELSE F("rel.ball", r.t, <<v, m.hist>>, r.X)
     [] r.rel = "same_on_from" ->     \* agree from index r.k on (1-based)
          LET a == ob[r.x].on b == ob[r.y].on IN
          IF Len(a) = Len(b) /\ \A t \in 1..Len(a) : t >= r.k => a[t] = b[t] THEN Ok
